@@ -33,6 +33,7 @@ func init() {
 			ruleMapAssign(c)
 			c.Clause("C17-D3")
 			ruleSortedNames(c)
+			ruleNamesOwnSlice(c)
 			c.Clause("C17-D4")
 			ruleContextKeys(c, d)
 			if d != nil {
@@ -60,6 +61,7 @@ func init() {
 			ruleBridgeGate(c)
 			c.Clause("C18-D2/D3/D4")
 			ruleBridgeIDs(c)
+			ruleSendFailureReported(c)
 			ruleParseRequestsNormalisesID(c)
 			ruleMixedFieldsRejected(c)
 			ruleBridgeParsesWholeBody(c)
@@ -86,6 +88,7 @@ func init() {
 			ruleQueryParams(c)
 			ruleQueryStringsWhole(c)
 			ruleQueryValuesCaseSensitive(c)
+			ruleQuotedBytesAnyPadding(c)
 			ruleQueryFromParsedForm(c)
 			ruleGetterForwardsRawResult(c)
 			ruleHTTPNeverRebuildsErrors(c)
